@@ -98,6 +98,7 @@ def install_optimisers(t, batch):
         sub.distinct = True
         e = z3.Int("e!q")
         st.pc.append(z3.ForAll([e], z3.Implies(z3.Select(sub.mem, e), z3.Select(rows.seq.mem, e))))
+        st.pc.append(z3.ForAll([e], z3.Implies(z3.And(0 <= e, e < sub.length_t), z3.Select(sub.mem, z3.Select(sub.elems, e)))))
         return sub
 
     def c_opt(ex, st, self_val, args, kwargs, node):
@@ -105,7 +106,7 @@ def install_optimisers(t, batch):
         rows = kwargs.get("choices", args[2] if len(args) > 2 else None)
         st.roots.setdefault("calls", []).append({"obj": "optimiser", "method": "optimize_acqf_discrete", "args": [acq, q, rows]})
         sub = mk_sub(ex, st, rows, q)
-        return [(st, (Rows(sub, rows.cols, rows), Opaque("AcqValues", z3.Const("acqv!%d" % V.fresh_id(), z3.DeclareSort("AcqValues")))))]
+        return [(st, (type(rows)(sub, rows.cols, rows), Opaque("AcqValues", z3.Const("acqv!%d" % V.fresh_id(), z3.DeclareSort("AcqValues")))))]
 
     def c_optd(ex, st, self_val, args, kwargs, node):
         acq, q = args[0], args[1]
@@ -113,7 +114,7 @@ def install_optimisers(t, batch):
         st.roots.setdefault("calls", []).append({"obj": "optimiser", "method": "optimize_decoupled_acqf_discrete", "args": [acq, q, rows]})
         sub = mk_sub(ex, st, rows, q)
         ei = Opaque("EvalIdx", z3.Const("evidx!%d" % V.fresh_id(), z3.DeclareSort("EvalIdx")))
-        return [(st, (Rows(sub, rows.cols, rows), Opaque("AcqValues", z3.Const("acqv!%d" % V.fresh_id(), z3.DeclareSort("AcqValues"))), ei))]
+        return [(st, (type(rows)(sub, rows.cols, rows), Opaque("AcqValues", z3.Const("acqv!%d" % V.fresh_id(), z3.DeclareSort("AcqValues"))), ei))]
     t.contracts[AQ + "::optimize_acqf_discrete"] = c_opt
     t.contracts[AQ + "::optimize_decoupled_acqf_discrete"] = c_optd
     t.trusted.add("callee-contract: the discrete optimisers return `batch` distinct rows of the candidates handed to them (C07)")
@@ -208,3 +209,203 @@ _evaluating("PaVeBaGP", "evaluating", ("S", "U"))
 _evaluating("VOGP", "evaluating", ("S", "P"))
 _evaluating("EpsilonPAL", "evaluating", ("S", "P"))
 _evaluating("PaVeBaPartialGP", "evaluating", ("S", "U"), decoupled=True)
+
+
+# ----------------------------------------------------------------------------------------------
+# VOGP_AD.evaluate_refine: the refined node is replaced by its children IN THE SET IT CAME FROM (C18 / C06)
+# ----------------------------------------------------------------------------------------------
+
+
+class RowOf:
+    def __init__(self, design):
+        self.design = design
+
+    def clone(self, memo):
+        return self
+
+
+class EqMask:
+    def __init__(self, design):
+        self.design = design
+
+    def clone(self, memo):
+        return self
+
+    def getitem(self, ex, st, idx):
+        if idx == 0:
+            return WhereIdx(self.design)
+        raise Unsupported("index into where() result")
+
+
+class WhereIdx:
+    def __init__(self, design):
+        self.design = design
+
+    def getattr(self, ex, st, name):
+        if name == "item":
+            return self
+        raise Unsupported(name)
+
+    def call(self, ex, st, args, kwargs, node):
+        return self.design
+
+    def clone(self, memo):
+        return self
+
+
+class PointsMapAD(PointsMap):
+    def compare(self, ex, st, name, a, b):
+        other = b if a is self else a
+        if name == "eq" and isinstance(other, RowOf):
+            return EqMask(other.design)
+        raise Unsupported("points comparison")
+
+
+class RowsAD(Rows):
+    def getitem(self, ex, st, idx):
+        if isinstance(idx, int):
+            ex.ctx.obligation("no-raise:IndexError", self.seq.length_t > idx)
+            return RowOf(z3.Select(self.seq.elems, idx))
+        return Rows.getitem(self, ex, st, idx)
+
+    def clone(self, memo):
+        from pyvc.symexec import clone_val
+        return RowsAD(clone_val(self.seq, memo), self.cols, self.origin)
+
+
+@task("C06", "VOGP_AD.evaluate_refine")
+def _evaluate_refine(t):
+    t.mode = "set-level; design-space calls by contract"
+    from .algos import depth
+    A = AlgoState(t, "VOGP_AD", with_U=False)
+    dchildren = z3.Int("n_children")
+    t.assume(dchildren >= 2, z3.Not(A.S0 == z3.EmptySet(I)))
+
+    class PM(PointsMapAD):
+        def getitem(self, ex, st, idx):
+            if isinstance(idx, SM.SSeq):
+                return RowsAD(idx, "all")
+            raise Unsupported("points index")
+    A.ds.fields["points"] = PM()
+    refine = z3.Bool("should_refine")
+    kids = {}
+
+    def m_should(ex, st, args, kwargs, node):
+        c = V.Z(args[1])
+        st.roots.setdefault("calls", []).append({"obj": "design_space", "method": "should_refine_design", "args": list(args)})
+        st.pc.append(z3.Implies(refine, depth(c) < A.maxd))      # C18: never refines at max depth
+        return refine
+
+    def m_refine(ex, st, args, kwargs, node):
+        c = V.Z(args[0])
+        st.roots.setdefault("calls", []).append({"obj": "design_space", "method": "refine_design", "args": list(args)})
+        ch = SM.SSeq(ex.ctx, "children")
+        ch.length_t = dchildren
+        ch.elems = SM.fresh_const(ex.ctx, "child_e", SM.SEQSORT)
+        ch.mem = SM.fresh_const(ex.ctx, "child_m", SM.SETSORT)
+        ch.distinct = True
+        e = z3.Int("e!q")
+        # C18: children get fresh indices beyond the existing nodes
+        st.pc.append(z3.ForAll([e], z3.Implies(z3.Select(ch.mem, e), e >= A.N)))
+        st.pc.append(z3.Exists([e], z3.Select(ch.mem, e)))
+        kids["mem"] = ch.mem
+        kids["parent"] = c
+        return ch
+
+    class DSMethods:
+        def __init__(self, f):
+            self.f = f
+
+        def call(self, ex, st, args, kwargs, node):
+            return self.f(ex, st, args, kwargs, node)
+
+        def clone(self, memo):
+            return self
+    A.ds.fields["should_refine_design"] = DSMethods(m_should)
+    A.ds.fields["refine_design"] = DSMethods(m_refine)
+    A.obj.fields.update({"problem": Stub("problem"), "model": Stub("model"), "batch_size": 1, "beta": Opaque("Scale", z3.Const("beta", z3.DeclareSort("Scale")))})
+    install_optimisers(t, 1)
+
+    def cmp_hook(ex, st, op, a, b):
+        import ast as _ast
+        for x, y in ((a, b), (b, a)):
+            if isinstance(x, PointsMapAD) and isinstance(y, RowOf) and isinstance(op, _ast.Eq):
+                return EqMask(y.design)
+        return NotImplemented
+    t.hooks["compare"] = cmp_hook
+
+    def lib_hook(ex, st, dotted, args, kwargs, node):
+        if dotted in ("numpy.all", "numpy.where") and isinstance(args[0], EqMask):
+            if dotted == "numpy.where":
+                t.trusted.add("design points are pairwise distinct (distinct dyadic cell centres: C18 tiling), so exactly one row equals the candidate")
+                return (WhereIdx(args[0].design),)
+            return args[0]
+        return NotImplemented
+    t.hooks["lib"] = lib_hook
+    paths = t.run(ALGOS["VOGP_AD"], "VOGP_AD.evaluate_refine", [], self_val=A.obj, setmode=True)
+    t.must_fail()
+    t.no_raise(paths)
+    e = z3.Int("e!q")
+
+    def goal(p):
+        calls = p.st.roots.get("calls") or []
+        S1, P1, U1, o = A.final(p)
+        refined = [c for c in calls if c.get("method") == "refine_design"]
+        ev = [c for c in calls if c["obj"] == "problem"]
+        if refined:
+            c = V.Z(refined[0]["args"][0])
+            km = kids["mem"]
+            inS = z3.Select(A.S0, c)
+            # the refined node is replaced by its children in the set it came from; the other set is untouched
+            caseS = z3.And(set_is_(S1, lambda x: z3.Or(z3.And(z3.Select(A.S0, x), x != c), z3.Select(km, x))), same_set(P1, A.P0))
+            caseP = z3.And(set_is_(P1, lambda x: z3.Or(z3.And(z3.Select(A.P0, x), x != c), z3.Select(km, x))), same_set(S1, A.S0))
+            return z3.And(z3.Or(z3.Select(A.S0, c), z3.Select(A.P0, c)), z3.If(inS, caseS, caseP),
+                          V.Z(o.fields["sample_count"]) == A.count0, z3.BoolVal(not ev))
+        # no refinement: one evaluation of the chosen active design, sets untouched
+        if len(ev) != 1:
+            return False
+        rows = ev[0]["args"][0]
+        act = lambda x: z3.Or(z3.Select(A.S0, x), z3.Select(A.P0, x))
+        return z3.And(same_set(S1, A.S0), same_set(P1, A.P0), V.Z(o.fields["sample_count"]) == A.count0 + rows.seq.length_t,
+                      z3.ForAll([e], z3.Implies(z3.Select(rows.seq.mem, e), act(e))))
+    def builder(mdl):
+        from pyvc import finite
+        n = t.finite.get("n") if t.finite else 3
+        dom = list(range(-1, n + 1))
+        ev = lambda x: mdl.eval(finite.expand(x, dom), model_completion=True)
+        tb = lambda x: z3.is_true(ev(x))
+        mem = lambda arr: sorted(k for k in range(n) if tb(z3.Select(arr, k)))
+        S0l, P0l = mem(A.S0), mem(A.P0)
+        return ["import vopy.algorithms.vogp_ad as M",
+                "N = %d; S0 = set(%r); P0 = set(%r); refine = %r" % (n, S0l, P0l, tb(refine)),
+                "class DS: pass",
+                "ds = DS(); ds.points = np.arange(N, dtype=float).reshape(N, 1) + 0.5",
+                "def refine_design(i):\n    k = len(ds.points); ds.points = np.vstack([ds.points, [[k + 0.5], [k + 1.5]]]); return [k, k + 1]",
+                "ds.refine_design = refine_design; ds.should_refine_design = lambda model, i, beta: refine",
+                "class Stub:\n    def __getattr__(self, n):\n        return lambda *a, **k: np.zeros((1, 2))",
+                "for cand in sorted(S0 | P0):",
+                "    ds.points = np.arange(N, dtype=float).reshape(N, 1) + 0.5",
+                "    M.optimize_acqf_discrete = lambda acq, q, choices, cand=cand: (ds.points[[cand]], np.zeros(1))",
+                "    M.MaxDiagonalAcquisition = lambda d: None",
+                "    a = object.__new__(M.VOGP_AD); a.S, a.P = set(S0), set(P0); a.design_space = ds; a.batch_size = 1; a.beta = 1.0",
+                "    a.problem, a.model, a.sample_count = Stub(), Stub(), 0",
+                "    a.evaluate_refine()",
+                "    if refine:",
+                "        kids = {N, N + 1}",
+                "        expS, expP = ((S0 - {cand}) | kids, set(P0)) if cand in S0 else (set(S0), (P0 - {cand}) | kids)",
+                "    else:",
+                "        expS, expP = set(S0), set(P0)",
+                "    print('candidate', cand, 'refine', refine, 'REAL', sorted(a.S), sorted(a.P), 'SPEC', sorted(expS), sorted(expP))",
+                "    if (a.S, a.P) != (expS, expP):",
+                "        print('REPLAY-CONFIRMED obligation=%s (the refined node is not replaced by its children in the set it came from)' % OBLIGATION)",
+                "        raise SystemExit(1)",
+                "print('REPLAY-NOT-REPRODUCED obligation=%s' % OBLIGATION)", "raise SystemExit(4)"]
+    t.finite = {"N": A.N, "replay": builder}
+    t.prove_paths("refined_node_replaced_by_children_in_its_own_set_or_one_active_design_sampled", paths, goal)
+    t.finite = None
+    t.implicit()
+
+
+def set_is_(a, pred):
+    e = z3.Int("e!q")
+    return z3.ForAll([e], z3.Select(a, e) == pred(e))
